@@ -18,6 +18,7 @@ class StopInterleaver:
         self.rnd = random.Random(seed)
         self.lock = threading.Lock()
         self.hits = []
+        self.slept = 0.0
 
     def __call__(self, name, ctx):
         if not self.armed:
@@ -41,7 +42,11 @@ class StopInterleaver:
         elif m == "random" and name in ("task_start", "sync_before_publish", "sync_published", "sync_obs_set", "stop_flipped", "block_enter"):
             with self.lock:
                 d = self.rnd.random() * 0.003
-            time.sleep(d)
+                if self.slept > 1.0:  # bounded: a free-running source queues thousands of tasks
+                    d = 0.0
+                self.slept += d
+            if d > 0:
+                time.sleep(d)
 
 
 def _feedforward_spec(rng):
@@ -78,6 +83,7 @@ def lifecycle_case(seed, mode="none", clock="SIMULATED", topology="random", hist
             if i == len(hist) - 1:
                 ctl.user_flipped.clear()
                 ctl.user_cancelled.clear()
+                ctl.slept = 0.0
                 ctl.armed = True  # arm before the last call so that the supervisor's *next* step meets the gates
             if call == "run":
                 gs = run.graph.run(gs)
